@@ -313,3 +313,127 @@ def lit_from_forms(a, op, b):
     """a op b over Forms -> Lit."""
     d = a - b
     return {"<": Lit(d, "<"), "<=": Lit(d, "<="), ">": Lit(-d, "<"), ">=": Lit(-d, "<="), "==": Lit(d, "=="), "!=": Lit(d, "!=")}[op]
+
+
+# ---------------------------------------------------------------------------
+# constant propagation of affine forms through straight-line code
+
+
+class State:
+    """atom text -> Form, for fields/locals assigned along a straight-line block."""
+
+    def __init__(self, init=None):
+        self.vals = dict(init or {})
+
+    def copy(self):
+        return State(self.vals)
+
+
+def lin_in(e, env, state):
+    """lin() with atoms that were assigned earlier in the block replaced by their current forms."""
+    f = lin(e, env)
+    return subst_form(f, state.vals)
+
+
+def subst_form(f, vals):
+    out = Form(const=f.const)
+    for a, c in f.terms.items():
+        if a in vals:
+            out = out + vals[a].scale(c)
+        elif a.startswith(("max(", "min(")):
+            out = out + Form.atom(a).scale(c)
+        else:
+            out = out + Form.atom(a).scale(c)
+    return out
+
+
+def exec_block(stmts, env, state, on_other=None):
+    """Propagate affine forms through assignments.  Handles `x = e`, `o.f = e`, tuple assignment
+    `a, b = e1, e2` (simultaneous), `x += e`, `x -= e`.  Other statements go to on_other(stmt, state)
+    (default: ignore pure expression statements / logging, raise NonAffine for anything else)."""
+    for st in stmts:
+        if isinstance(st, ast.Assign) and len(st.targets) == 1:
+            t = st.targets[0]
+            if isinstance(t, (ast.Tuple, ast.List)) and isinstance(st.value, (ast.Tuple, ast.List)) and len(t.elts) == len(st.value.elts):
+                vals = [lin_in(v, env, state) for v in st.value.elts]
+                for tt, v in zip(t.elts, vals):
+                    state.vals[_atom_text(tt, env)] = v
+            elif isinstance(t, (ast.Name, ast.Attribute, ast.Subscript)):
+                state.vals[_atom_text(t, env)] = lin_in(st.value, env, state)
+            else:
+                raise NonAffine("assignment target")
+        elif isinstance(st, ast.AugAssign) and isinstance(st.op, (ast.Add, ast.Sub)):
+            k = _atom_text(st.target, env)
+            cur = state.vals.get(k, Form.atom(k))
+            v = lin_in(st.value, env, state)
+            state.vals[k] = cur + v if isinstance(st.op, ast.Add) else cur - v
+        elif isinstance(st, ast.Expr) and isinstance(st.value, ast.Call) and _call_name(st.value.func) and _call_name(st.value.func).split(".")[0] in ("logger", "logging", "print"):
+            continue
+        elif isinstance(st, ast.Expr) and isinstance(st.value, ast.Constant):
+            continue
+        elif isinstance(st, ast.Pass):
+            continue
+        elif on_other is not None:
+            on_other(st, state)
+        else:
+            raise NonAffine(f"statement {type(st).__name__} at line {st.lineno}")
+    return state
+
+
+# ---------------------------------------------------------------------------
+# integer idioms over one non-negative quantity (microsecond rounding)
+
+
+def canon_int(e, fi=None, var_atoms=None, _depth=0):
+    """Canonical nested-tuple form of an integer expression; `int(x / k)` and `x // k` are both
+    ('fdiv', x, k) (equal for the non-negative operands this is used on).  Single-def locals are inlined."""
+    if _depth > 12:
+        return ("?", norm(e))
+    if isinstance(e, ast.Constant) and isinstance(e.value, int) and not isinstance(e.value, bool):
+        return ("c", e.value)
+    if isinstance(e, ast.Name) and fi is not None and e.id not in fi.params:
+        v = single_def(fi, e.id)
+        if v is not None:
+            return canon_int(v, fi, var_atoms, _depth + 1)
+        return ("v", e.id)
+    if isinstance(e, (ast.Name, ast.Attribute)):
+        return ("v", norm(e))
+    if isinstance(e, ast.Call) and isinstance(e.func, ast.Name) and e.func.id == "int" and len(e.args) == 1:
+        a = e.args[0]
+        if isinstance(a, ast.BinOp) and isinstance(a.op, ast.Div):
+            return ("fdiv", canon_int(a.left, fi, var_atoms, _depth + 1), canon_int(a.right, fi, var_atoms, _depth + 1))
+        return canon_int(a, fi, var_atoms, _depth + 1)
+    if isinstance(e, ast.Call) and isinstance(e.func, ast.Name) and e.func.id in ("round", "ceil") or (isinstance(e, ast.Call) and norm(e.func) in ("math.ceil", "math.floor")):
+        return (norm(e.func), tuple(canon_int(a, fi, var_atoms, _depth + 1) for a in e.args))
+    if isinstance(e, ast.BinOp):
+        a, b = canon_int(e.left, fi, var_atoms, _depth + 1), canon_int(e.right, fi, var_atoms, _depth + 1)
+        if isinstance(e.op, ast.FloorDiv):
+            return ("fdiv", a, b)
+        if isinstance(e.op, ast.Mod):
+            return ("mod", a, b)
+        if isinstance(e.op, ast.Mult):
+            if a[0] == "c" and b[0] == "c":
+                return ("c", a[1] * b[1])
+            if b[0] == "c":
+                a, b = b, a
+            return ("mul", a, b)
+        if isinstance(e.op, ast.Add):
+            if a[0] == "c" and b[0] == "c":
+                return ("c", a[1] + b[1])
+            if b[0] == "c":
+                a, b = b, a
+            return ("add", a, b)
+        if isinstance(e.op, ast.Sub):
+            if a[0] == "c" and b[0] == "c":
+                return ("c", a[1] - b[1])
+            return ("sub", a, b)
+        if isinstance(e.op, ast.Div):
+            return ("div", a, b)
+    return ("?", norm(e))
+
+
+def is_floor_ms(c, us):
+    """c == 1000 * floor(us / 1000) in one of the listed idioms"""
+    v = ("v", us)
+    fd = ("fdiv", v, ("c", 1000))
+    return c in (("mul", ("c", 1000), fd), ("sub", v, ("mod", v, ("c", 1000))))
